@@ -92,7 +92,7 @@ struct HeapEngine : Engine {
     std::mutex mu; std::condition_variable cv; int turn = -1; int ntasks = 1;
     std::vector<std::int64_t> sched; std::size_t sched_pos = 0; std::uint64_t yields = 0, switches = 0;
     std::vector<char> task_done; std::vector<sigjmp_buf*> task_top;
-    std::uint64_t sched_hash = 0;
+    std::uint64_t sched_hash = 0; std::unordered_set<std::uint64_t> scheds_seen;
 
     const char* name() const override { return "heap"; }
 
@@ -603,6 +603,7 @@ struct HeapEngine : Engine {
             { std::unique_lock<std::mutex> lk(mu); tl_task = -1; turn = pick_first(); cv.notify_all(); cv.wait(lk, [&] { return turn == -1; }); }
             for (auto& t : th) t.join();
             s.probes["multi_task_runs"]++; s.probes["task_switches"] += switches; s.probes["yield_points_hit"] += yields;
+            scheds_seen.insert(sched_hash);
             r.log.linef("sched yields=%llu switches=%llu h=%016llx", (unsigned long long)yields, (unsigned long long)switches, (unsigned long long)sched_hash);
         }
         // implicit epilogue: release everything, then the heap must be empty (no leak on any path)
@@ -733,7 +734,7 @@ struct HeapEngine : Engine {
         }
     }
 
-    std::string extra_json() override { return "{\"impl\":\"" + impl + "\",\"instantiations\":" + std::to_string(nreg) + ",\"sweep_cases\":" + std::to_string(sweep.size()) + "}"; }
+    std::string extra_json() override { return "{\"impl\":\"" + impl + "\",\"distinct_interleavings_this_worker\":" + std::to_string(scheds_seen.size()) + ",\"instantiations\":" + std::to_string(nreg) + ",\"sweep_cases\":" + std::to_string(sweep.size()) + "}"; }
 };
 
 } // namespace
